@@ -3,30 +3,38 @@ _c01_common = dict(harness="C01_bottom_up.cpp", entries=["harness_c01"], units=C
                    timeout={"quick": 900, "thorough": 2400}, mem_gb=3)
 _DELS = [OP_DEL_V, OP_DEL_E, OP_DEL_F, OP_DEL_C]
 _SWAPS = [OP_SWAP_V, OP_SWAP_E, OP_SWAP_F, OP_SWAP_C]
+_C01_BOUNDS = ("K=0 (the base as built by add_vertex/add_edge/add_face/add_cell) and K=1 operation from {delete_vertex/edge/face/cell, swap_*_indices, add_vertex, add_n_vertices, add_edge(dup on/off), add_face(3 vertices), "
+               "set_edge, set_face (rotated / reversed list), set_cell (rotated / reversed list), clear, bottom-up off/on in every subset and order} with the argument tuples of the base mesh chosen by a symbolic selector, "
+               "the (deferred x fast) modes for deletions; symbolic target probes (vertex, halfedge, halfface, cell); bases quick: one tetrahedron, low-dimensional mesh (triangle + dangling edge + isolated vertex + duplicate edge), two triangles, empty mesh; "
+               "quick tier: all deletions, the first 8 pairs of each swap kind, first argument chunks of the other operations; thorough: every argument tuple, and two tets sharing face/edge/vertex, 3-tet ring and fan, "
+               "prism+pyramid, hexahedra, the two-shared-faces base")
 PROPS["C01"] = dict(
   jobs=[
-    dict(name="c01-k1", **_c01_common,
-         shards={"quick": op_shards([B_TET], ALL_MODES, _DELS) + op_shards([B_TET], [1], _SWAPS + [OP_ADD_E, OP_ADD_E_DUP, OP_ADD_V, OP_ADD_NV, OP_CLEAR, OP_BU_TOGGLE])
-                        + op_shards([B_LOWDIM], ALL_MODES, _DELS) + op_shards([B_LOWDIM], [0], [OP_SWAP_V, OP_SWAP_E, OP_ADD_E, OP_ADD_E_DUP, OP_BU_TOGGLE])
-                        + op_shards([B_TET, B_LOWDIM, B_TET2_FACE, B_TRI2, B_EMPTY], [1], [OP_NONE]) + op_shards([B_TET], [1], [OP_SET_F, OP_SET_C]) + op_shards([B_LOWDIM], [1], [OP_SET_E])[9:13]
-                        + op_shards([B_LOWDIM], [1], [OP_ADD_F])[:3],
-                 "thorough": op_shards([B_TET2_FACE, B_TET2_EDGE, B_TET2_VERTEX, B_TET3_RING, B_PRISM_PYR, B_TRI2], ALL_MODES, _DELS)
-                        + op_shards([B_TET2_FACE, B_TRI2], [1], _SWAPS + [OP_ADD_E, OP_BU_TOGGLE]) + op_shards([B_HEX], [0, 3], _DELS)
-                        + op_shards([B_TET2_EDGE, B_TET2_VERTEX, B_TET3_RING, B_TET3_FAN, B_HEX, B_HEX2, B_PRISM_PYR, B_TWOFACE, B_TET_ODD], [1], [OP_NONE]) + op_shards([B_TWOFACE], [1, 3], [OP_DEL_C])
-                        + op_shards([B_LOWDIM], [1], [OP_SET_E, OP_ADD_F]) + op_shards([B_TRI2], [1], [OP_SET_E])[:20] + op_shards([B_TET2_FACE], [1], [OP_SET_F, OP_SET_C])},
-         bounds="K=0 (the base as built by add_vertex/add_edge/add_face/add_cell) and K=1 operation from {delete_vertex/edge/face/cell, swap_*_indices, add_vertex, add_n_vertices, add_edge(dup on/off), add_face(3 vertices), set_edge, set_face (rotated / reversed list), set_cell (rotated / reversed list), clear, bottom-up off/on in every subset and order} "
-                "with every argument tuple of the base mesh (symbolic selector, 8 tuples per query), every (deferred x fast) mode for deletions; symbolic target probes (vertex, halfedge, halfface, cell); "
-                "bases quick: one tetrahedron, low-dimensional mesh (triangle + dangling edge + isolated vertex + duplicate edge); thorough adds two tets sharing face/edge/vertex, 3-tet ring, prism+pyramid, two triangles, one hexahedron"),
+    dict(name="c01-k1", **_c01_common,   # 8 argument tuples per query
+         shards={"quick": op_shards([B_TET], [0, 1, 2], _DELS) + op_shards([B_LOWDIM], [0], _DELS)
+                        + op_shards([B_TET, B_LOWDIM, B_TRI2, B_EMPTY], [1], [OP_NONE]) + op_shards([B_TET], [1], [OP_ADD_V, OP_ADD_NV, OP_CLEAR]),
+                 "thorough": op_shards([B_TET, B_LOWDIM], [3], _DELS) + op_shards([B_LOWDIM], [1, 2], _DELS)
+                        + op_shards([B_TET2_FACE, B_TET2_EDGE, B_TET2_VERTEX, B_TET3_RING, B_PRISM_PYR, B_TRI2], ALL_MODES, _DELS) + op_shards([B_HEX], [0, 3], _DELS)
+                        + op_shards([B_TET2_FACE, B_TET2_EDGE, B_TET2_VERTEX, B_TET3_RING, B_TET3_FAN, B_HEX, B_HEX2, B_PRISM_PYR, B_TWOFACE, B_TET_ODD], [1], [OP_NONE]) + op_shards([B_TWOFACE], [1, 3], [OP_DEL_C])},
+         bounds=_C01_BOUNDS),
+    dict(name="c01-k1s", defines=["NCASES=4"], **_c01_common,   # heavier operations: 4 argument tuples per query
+         shards={"quick": op_shards([B_TET], [1], [OP_SWAP_V, OP_SWAP_E, OP_SWAP_F], per=4)[0:2] + op_shards([B_TET], [1], [OP_SWAP_E], per=4)[4:5] + op_shards([B_TET], [1], [OP_SWAP_F], per=4)[1:3]
+                        + op_shards([B_TET], [1], [OP_SWAP_C, OP_SET_C, OP_SET_F], per=4) + op_shards([B_TET], [1], [OP_ADD_E, OP_ADD_E_DUP], per=4)[1:2] + op_shards([B_TET], [1], [OP_BU_TOGGLE], per=4)[0:2]
+                        + op_shards([B_LOWDIM], [1], [OP_SET_E], per=4)[19:21] + op_shards([B_LOWDIM], [1], [OP_ADD_F], per=4)[1:3] + op_shards([B_LOWDIM], [0], [OP_SWAP_V, OP_SWAP_E], per=4)[0:3],
+                 "thorough": op_shards([B_TET], [1], _SWAPS + [OP_ADD_E, OP_ADD_E_DUP, OP_BU_TOGGLE, OP_SET_F, OP_SET_C], per=4) + op_shards([B_LOWDIM], [0], [OP_SWAP_V, OP_SWAP_E, OP_ADD_E, OP_ADD_E_DUP, OP_BU_TOGGLE], per=4)
+                        + op_shards([B_LOWDIM], [1], [OP_SET_E, OP_ADD_F], per=4) + op_shards([B_TRI2], [1], [OP_SET_E], per=4)[:40]
+                        + op_shards([B_TET2_FACE, B_TRI2], [1], _SWAPS + [OP_ADD_E, OP_BU_TOGGLE, OP_SET_F, OP_SET_C], per=4)},
+         bounds=_C01_BOUNDS),
     dict(name="c01-k2", **_c01_common,
-         shards={"quick": op2_shards([B_TET], [1, 3], OP_DEL_E, OP_GC, 0) + op2_shards([B_TET], [1, 3], OP_DEL_V, OP_GC, 0) + op2_shards([B_TET], [1], OP_DEL_F, OP_GC, 0)
-                        + op2_shards([B_LOWDIM], [1, 3], OP_DEL_V, OP_GC, 0) + op2_shards([B_LOWDIM], [1, 3], OP_DEL_E, OP_GC, 0)
-                        + _with(op2_shards([B_TET], [1, 3], OP_DEL_C, OP_READD_C, 0), {7: OP_GC}) + op2_shards([B_TET], [1], OP_DEL_C, OP_READD_C, 0),
-                 "thorough": [s for op1 in _DELS for s in op2_shards([B_TET, B_LOWDIM], [1, 3], op1, OP_GC, 0)]
+         shards={"quick": op2_shards([B_TET], [1], OP_DEL_E, OP_GC, 0) + op2_shards([B_TET], [3], OP_DEL_V, OP_GC, 0) + op2_shards([B_LOWDIM], [1], OP_DEL_E, OP_GC, 0)
+                        + _with(op2_shards([B_TET], [1], OP_DEL_C, OP_READD_C, 0), {7: OP_GC}),
+                 "thorough": [s for op1 in _DELS for s in op2_shards([B_TET, B_LOWDIM], [1, 3], op1, OP_GC, 0)] + op2_shards([B_TET], [1, 3], OP_DEL_C, OP_READD_C, 0) + _with(op2_shards([B_TET], [3], OP_DEL_C, OP_READD_C, 0), {7: OP_GC})
                         + [s for op1 in _DELS for op2 in (OP_ADD_E, OP_DEL_E, OP_DEL_V, OP_SWAP_E, OP_SWAP_V, OP_BU_TOGGLE) for s in op2_shards([B_TET], [0, 1], op1, op2, 1, fixed_range=[0, 2])]
                         + [s for op1 in _SWAPS for op2 in _DELS for s in op2_shards([B_TET], [0, 3], op1, op2, 1, fixed_range=[1, 6])]
                         + [s for op1 in _DELS for s in op2_shards([B_TET2_FACE], [1, 3], op1, OP_GC, 0)]
                         + _with(op2_shards([B_TET2_FACE, B_TET3_RING], [1, 3], OP_DEL_C, OP_READD_C, 0), {7: OP_GC}) + _with(op2_shards([B_TET2_FACE], [1, 3], OP_DEL_F, OP_READD_C, 0), {7: OP_GC})},
-         bounds="K=2..3 operations: quick = every deletion followed by collect_garbage in the deferred modes, delete_cell -> re-add a cell on the halffaces of the not yet collected cell -> collect_garbage; thorough adds deletion->{add_edge, delete, swap, bottom-up toggle}, swap->delete with a symbolic selector over the second operation's arguments"),
+         bounds="K=2..3 operations: quick = delete_edge/delete_vertex followed by collect_garbage in deferred mode, delete_cell -> re-add a cell on the halffaces of the not yet collected cell -> collect_garbage; "
+                "thorough adds every deletion -> collect_garbage on more bases, deletion->{add_edge, delete, swap, bottom-up toggle}, swap->delete with a symbolic selector over the second operation's arguments"),
   ],
   assumptions=["precondition assumed: operation arguments are live handles; meshes in which a halfface is used by two live cells are skipped by the oracle (outside the property)",
                "the queried centre entity is enumerated in the harness; the compared target entity is a free symbolic handle"],
